@@ -540,7 +540,26 @@ pub fn run(ctx: Ctx) -> Report {
             })
             .await;
         }
-        let results = results.lock().unwrap().clone();
+        let mut results = results.lock().unwrap().clone();
+        // a problem seen while 24 cases ran at once is confirmed by re-running that case alone with the
+        // long bound; only a repeatable miss is reported (a loaded machine must not raise an alarm)
+        let slow = World { eof_wait: Duration::from_secs(10), socks: w.socks.clone(), http: w.http.clone(), accepted: w.accepted.clone(), target_port: w.target_port, _keep: Vec::new() };
+        let mut next_uniq = 50_000u32;
+        for (c, r) in results.iter_mut() {
+            if matches!(r, Ok(p) if !p.is_empty()) || r.is_err() {
+                next_uniq += 1;
+                let mut c2 = c.clone();
+                c2.uniq = next_uniq;
+                let again = tokio::time::timeout(Duration::from_secs(120), e2e_case(&slow, &c2)).await.unwrap_or(Err("re-run exceeded 120 s".into()));
+                rep.add("e2e_cases_rerun_in_isolation", 1);
+                match (&*r, again) {
+                    (_, Ok(p2)) if p2.is_empty() => *r = Ok(Vec::new()),
+                    (_, Ok(p2)) => *r = Ok(p2),
+                    (Err(_), Err(e2)) => *r = Err(e2),
+                    (Ok(_), Err(_)) => {}
+                }
+            }
+        }
         for (i, (c, r)) in results.iter().enumerate() {
             rep.case(Some(hash_str(&c.describe().to_string())));
             rep.add("e2e_close_cases", 1);
